@@ -156,15 +156,14 @@ func VerifC05_FramedStream() {
 func VerifC05_NatsServerFrame() {
 	hd := &verifPingHandler{outcome: verifOutcome(verifOutValue, 0)}
 	b := newVerifBroker()
-	srv := NewFNatsServerBuilder(&nats.Conn{}, verifPingProcessor(hd), NewFProtocolFactory(thrift.NewTBinaryProtocolFactoryDefault()), []string{"svc"}).Build().(*fNatsServer)
+	srv := NewFNatsServerBuilder(&nats.Conn{}, verifPingProcessor(hd), NewFProtocolFactory(thrift.NewTBinaryProtocolFactoryDefault()), []string{"svc"}).Build()
 	data := verifBuffer()
-	verifNoPanic("fNatsServer.processFrame panics", func() {
-		_ = srv.processFrame(&frameWrapper{frameBytes: data, reply: "r1", ephemeralProperties: map[interface{}]interface{}{}})
-	})
 	f := NewFContext("c")
 	good := prependFrameSize(verifRequestFrame(f, verifReqKnown, "a"))
-	verifAssert(srv.processFrame(&frameWrapper{frameBytes: good, reply: "r2", ephemeralProperties: map[interface{}]interface{}{}}) == nil, "a later well-formed request is processed")
-	verifAssert(verifReplyCount(b, "r2") == 1, "and answered")
+	// the server as it really runs: a panic in its worker goroutine kills the process and is reported as such
+	verifServe(srv, b, verifPub{reply: "r1", data: data}, verifPub{reply: "r2", data: good})
+	verifAssert(verifReplyCount(b, "r1") <= 1, "at most one reply per request")
+	verifAssert(verifReplyCount(b, "r2") == 1, "a later well-formed request is processed and answered")
 	verifReach("end")
 }
 
@@ -218,18 +217,15 @@ func verifMutate(good []byte) []byte {
 func VerifC05_MutatedRequest() {
 	hd := &verifPingHandler{outcome: verifOutcome(verifOutValue, 0)}
 	b := newVerifBroker()
-	srv := NewFNatsServerBuilder(&nats.Conn{}, verifPingProcessor(hd), NewFProtocolFactory(thrift.NewTBinaryProtocolFactoryDefault()), []string{"svc"}).Build().(*fNatsServer)
+	srv := NewFNatsServerBuilder(&nats.Conn{}, verifPingProcessor(hd), NewFProtocolFactory(thrift.NewTBinaryProtocolFactoryDefault()), []string{"svc"}).Build()
 	f0 := NewFContext("c0")
 	f0.AddRequestHeader("k", "v")
 	data := verifMutate(prependFrameSize(verifRequestFrame(f0, verifReqKnown, "a")))
-	verifNoPanic("fNatsServer.processFrame panics", func() {
-		_ = srv.processFrame(&frameWrapper{frameBytes: data, reply: "r1", ephemeralProperties: map[interface{}]interface{}{}})
-	})
-	verifAssert(verifReplyCount(b, "r1") <= 1, "at most one reply per request")
 	f := NewFContext("c")
 	good := prependFrameSize(verifRequestFrame(f, verifReqKnown, "a"))
-	verifAssert(srv.processFrame(&frameWrapper{frameBytes: good, reply: "r2", ephemeralProperties: map[interface{}]interface{}{}}) == nil, "a later well-formed request is processed")
-	verifAssert(verifReplyCount(b, "r2") == 1, "and answered")
+	verifServe(srv, b, verifPub{reply: "r1", data: data}, verifPub{reply: "r2", data: good})
+	verifAssert(verifReplyCount(b, "r1") <= 1, "at most one reply per request")
+	verifAssert(verifReplyCount(b, "r2") == 1, "a later well-formed request is processed and answered")
 	verifReach("end")
 }
 
